@@ -34,10 +34,12 @@ TIERS = {
     # K: symbols per type in the uniform family; R: symbols used by rare operations
     'quick': dict(K=6, R=2, depth_small=3, depth_big=3, small=6, wordlen=4, wordlen_big=3, big=12, maxpersym=2, maxrare=1,
                   ops=['add', 'fwd', 'remove', 'replace', 'replacep', 'tostring', 'tostring_ic', 'dotelem', 'dotnone'],
-                  families=['uniform', 'words', 'perms', 'removal', 'cover', 'afterfail', 'wordrem'], chks=['TRUE', 'FALSE'], shards=40, RM=4, remadds=3, planlen=8, planmax=250),
+                  families=['uniform', 'words', 'perms', 'removal', 'cover', 'afterfail', 'wordrem', 'twoslot', 'wordedit'], chks=['TRUE', 'FALSE'], shards=40, RM=4, remadds=3, planlen=8, planmax=250,
+                  walks=dict(num=25, depth=6, maxrare=3, maxpersym=3, seed=20260927)),
     'thorough': dict(K=8, R=3, depth_small=4, depth_big=3, small=5, wordlen=5, wordlen_big=4, big=12, maxpersym=2, maxrare=1,
                      ops=['add', 'fwd', 'remove', 'replace', 'replacep', 'tostring', 'tostring_ic', 'dotelem', 'dotnone'],
-                     families=['uniform', 'words', 'perms', 'removal', 'cover', 'afterfail', 'wordrem'], chks=['TRUE', 'FALSE'], shards=64, RM=5, remadds=4, planlen=10, planmax=2000, small_wordlen=5),
+                     families=['uniform', 'words', 'perms', 'removal', 'cover', 'afterfail', 'wordrem', 'twoslot', 'wordedit'], chks=['TRUE', 'FALSE'], shards=64, RM=5, remadds=4, planlen=10, planmax=2000, small_wordlen=5,
+                     walks=dict(num=400, depth=8, maxrare=4, maxpersym=3, seed=20260927)),
 }
 
 
@@ -135,7 +137,7 @@ def unconstructible_names(wd):
     return json.loads(p.stdout.decode().strip().splitlines()[-1])
 
 
-def shard_pipeline(wd, k, types, plans, P, families=None, ops=None):
+def shard_pipeline(wd, k, types, plans, P, families=None, ops=None, walks=None):
     """GEN -> replay -> TV for one shard of types; returns dict(divergences, counts, stats)"""
     sd = os.path.join(wd, 'shard%02d' % k)
     os.makedirs(sd, exist_ok=True)
@@ -155,9 +157,17 @@ def shard_pipeline(wd, k, types, plans, P, families=None, ops=None):
         f.write(GEN_CFG % dict(chks=','.join(P['chks']), families=','.join(q(x) for x in (families or P['families'])),
                                maxpersym=P['maxpersym'], maxrare=P['maxrare'], planlen=P.get('planlen', 8), ops=','.join(q(x) for x in (ops or P['ops']))))
     t0 = time.time()
-    g = tlc.run(os.path.join(sd, 'G.tla'), os.path.join(sd, 'G.cfg'), workers=1, timeout=3600, heap='2g', light=True)
-    if not g['complete']:
-        raise tlc.TLCError('GEN shard %d failed:\n%s' % (k, g['out'][-3000:]))
+    if walks:
+        # random walks of the uniform family, deeper than the enumeration reaches: TLC -simulate with a FIXED seed
+        # (the exploration is the same on every run; see DESIGN 5 on determinism)
+        g = tlc.run(os.path.join(sd, 'G.tla'), os.path.join(sd, 'G.cfg'), workers=1, timeout=3600, heap='2g', light=True,
+                    simulate='num=%d' % (walks['num'] * len(types)), depth=walks['depth'] + 2, seed=walks['seed'] + k)
+        if g['rc'] != 0 or g['error'] or g['violated']:
+            raise tlc.TLCError('GEN (walks) shard %d failed:\n%s' % (k, g['out'][-3000:]))
+    else:
+        g = tlc.run(os.path.join(sd, 'G.tla'), os.path.join(sd, 'G.cfg'), workers=1, timeout=3600, heap='2g', light=True)
+        if not g['complete']:
+            raise tlc.TLCError('GEN shard %d failed:\n%s' % (k, g['out'][-3000:]))
     jobs = {}
     nbeh = 0
     for b in tlc.reports(g['out']):
@@ -276,7 +286,7 @@ def run_campaign(tier):
                                   stride=1, cost=400, nofamilies=True)
         # work units: a type with all families, or -- for the heaviest types -- one unit per family group; balanced over
         # the shards by estimated cost, largest first
-        groups = [['uniform'], ['cover', 'wordrem'], [f for f in P['families'] if f not in ('uniform', 'cover', 'wordrem')]]
+        groups = [['uniform'], ['cover', 'wordrem', 'wordedit'], [f for f in P['families'] if f not in ('uniform', 'cover', 'wordrem', 'wordedit')]]
         total = sum(p['cost'] for p in plans.values() if not p.get('nofamilies'))
         units = []
         for t, p in plans.items():
@@ -305,8 +315,17 @@ def run_campaign(tier):
                 jobs.append((sorted(ts), [f for f in fams if f != '-nodot'],
                              ['add', 'remove', 'replace', 'replacep', 'tostring', 'tostring_ic'] if '-nodot' in fams else None))
         results = []
+        W = P.get('walks')
+        wjobs = []
+        if W:
+            wtypes = sorted(t for t, p in plans.items() if not p.get('nofamilies'))
+            wplans = {t: dict(plans[t], depth=W['depth']) for t in wtypes}
+            Pw = dict(P, maxrare=W['maxrare'], maxpersym=W['maxpersym'])
+            nsh = min(common.NCPU, len(wtypes))
+            wjobs = [(wtypes[j::nsh], wplans, Pw) for j in range(nsh)]
         with ThreadPoolExecutor(max_workers=common.NCPU) as ex:
             futs = [ex.submit(shard_pipeline, wd, k, ts, plans, P, fams, ops) for k, (ts, fams, ops) in enumerate(jobs)]
+            futs += [ex.submit(shard_pipeline, wd, len(jobs) + k, ts, wp, Pw_, ['uniform'], None, W) for k, (ts, wp, Pw_) in enumerate(wjobs)]
             for f in futs:
                 results.append(f.result())
         counts = {}
